@@ -18,6 +18,8 @@ import TrompModel.Tie.Notify
 import TrompModel.Tie.Decommission
 import TrompModel.Tie.SemKill
 import TrompModel.Props.C14_SeqRing
+import TrompModel.Props.C14_SeqHeapRefines
+import TrompModel.Tie.IsCompleted
 
 namespace Tromp.Tie
 open Tromp Tromp.Ring World Tromp.C14Ring
@@ -195,5 +197,27 @@ theorem kill_heap_from_cxx (hp : Heap Addr) {w : World} (h : WF w) (R : Rep hp (
     Rep (run (ringOf w, hp) ((List.range nFns).reverse.flatMap (fun f => Cxx.expectations_dtor.flatMap (expDtorOps m f)))).2
         (ringOf (w.killMock o m).1) := by
   rw [kill_script_from_cxx]; exact kill_heap hp h R o m hm
+
+/-! ### from the pointers back up: `sequence::is_completed()` evaluated on the heap -/
+
+/-- the owner a handle address belongs to. -/
+def ownerOfHandle : SAddr → Option Owner
+  | .handle o _ => some o
+  | .pending _ => none
+
+/-- **`is_completed()` on the real layout**: at any point of any history, the translated `sequence_type::is_completed` run over
+    the elements an iterator visits in the heap (`begin()` … `end()` of the list object of sequence `s`) returns the answer of the
+    model's `completed` query — C++ text → loop over pointers → World, every arrow a theorem. -/
+theorem is_completed_on_heap (n : Nat) (ops : List Tromp.Op) (hb : ∀ op ∈ ops, ∀ s ∈ registers op, s < n) (s : Nat) (hs : s < n) :
+    let w := (World.run {} ops).1
+    let hp := (seqHeapRun n ({}, Heap.init) ops).2
+    Cxx.is_completed (fun a => match ownerOfHandle a with | some o => w.ownerSat o | none => true)
+        (toList hp (SAddr.pending s) ((w.pendingOf s).length + 1)) =
+      (w.pendingOf s).all w.ownerSat := by
+  intro w hp
+  have hwalk := (pending_walkable n ops hb s hs).1
+  simp only [List.length_map] at hwalk
+  rw [hwalk, is_completed_eq, List.all_map]
+  rfl
 
 end Tromp.Tie
